@@ -385,6 +385,13 @@ impl ModuleManager {
             imports.remove(name);
         }
 
+        // Drop the surviving modules' import declarations that refer to the
+        // deleted module: they would make visibility queries fail and could
+        // close a cycle through a module later re-created under the same name.
+        for module in self.modules.values_mut() {
+            module.imports.retain(|import| import.from_module != name);
+        }
+
         Ok(())
     }
 
